@@ -357,9 +357,16 @@ def r07_4(ctx):
                 return m[n.id]
             return None
         return f
+    if isinstance(e2, ast.Call) and (call_name(e2) or '').split('.')[-1] == '_nurbs_jacobian':
+        # the Hessian routine calls the helper instead of repeating the quotient rule: nothing to compare
+        ctx.expect('R07.4', G + '.NurbsFunc.grid_hessian', e2, '_nurbs_jacobian(val, jac)', e2, 'Jacobian of the NURBS map from the shared helper',
+                   label='Njac = ' + src(e2))
+        delegated = True
+    else:
+        delegated = False
     try:
         r1 = poly.from_ast(e1, atom(m1))
-        r2 = poly.from_ast(e2, atom(m2))
+        r2 = r1 if delegated else poly.from_ast(e2, atom(m2))
         ok = (r1 == r2)
         # and it is the quotient rule (V'W - V W')/W^2
         V, W, Vj, Wj = (poly.Rat(poly.Poly.sym(x)) for x in ('val[...,:-1,None]', 'val[...,-1:,None]', 'jac[...,:-1,:]', 'jac[...,-1:,:]'))
